@@ -500,8 +500,8 @@ theorem C02_clean_start (b : B) (c : Nat) (req : Connect)
 its socket closes; connection 3 resumes "a": SP=1, exchange 5 still open with
 its content; PUBREL 5 on connection 3 hands it on (to the callback, and to
 connection 3 itself, for which the session's subscription to `t` was
-re-established) and is answered PUBCOMP 5.  Connection 4 then connects as "a" with CleanSession=1: SP=0, new
-session object 3 with an empty queue. -/
+re-established) and is answered PUBCOMP 5.  Connection 4 then connects as "a" with CleanSession=1:
+connection 3 is disconnected (MQTT-3.1.4-2), SP=0, new session object 3 with an empty queue. -/
 example :
     let p5 : Pub := { qos := 2, topic := [116], pktid := 5, payload := [1] }
     let evs : List Ev :=
@@ -511,7 +511,7 @@ example :
     bound b3 3 1 = true ∧ pub2inOf b3 1 = [⟨5, 0, p5⟩] ∧
     (step b3 (.packet 3 (.pubrel 5))).2 =
       [.call 1000 { p5 with qos := 1 }, .send 3 (.publish p5), .send 3 (.pubcomp 5)] ∧
-    (step b3 (.first 4 (connectPkt [97] true) true)).2 = [.send 4 (.connack false 0)] ∧
+    (step b3 (.first 4 (connectPkt [97] true) true)).2 = [.closed 3, .send 4 (.connack false 0)] ∧
     bound (step b3 (.first 4 (connectPkt [97] true) true)).1 4 3 = true ∧
     pub2inOf (step b3 (.first 4 (connectPkt [97] true) true)).1 3 = [] := by
   decide
@@ -613,16 +613,15 @@ theorem C02_refines_reference (es : List Ev) (hok : okRun {} es = true) (c : Nat
               { k with open2 := toOpen2 (q2Acked (q2Ack σ.pub2in id)).1 })
             ((q2Acked (q2Ack σ.pub2in id)).2.map (·.msg))).2 outs) := by
   have hR := Mqtt.Proofs.BrokerRefine.reach es hok
-  have hov := hR.overlap
   refine ⟨fun p hp => (Mqtt.Proofs.BrokerRefine.reach_step es hok (.packet c (.publish p)) hp).2.1,
     fun id => (Mqtt.Proofs.BrokerRefine.reach_step es hok (.packet c (.pubrel id)) rfl).2.1, ?_⟩
   obtain ⟨σ, k, h1, h2, h3, h4, h5⟩ := Mqtt.Proofs.BrokerRefine.qos2_refines hR c hl
   refine ⟨σ, k, h1, h2, h3, ?_, ?_⟩
   · intro p hq
-    rw [Mqtt.Proofs.BrokerRefine.spec_step_eq _ _ hov]
+    rw [Mqtt.Proofs.BrokerRefine.spec_step_eq _ _]
     exact h4 p hq
   · intro id
     obtain ⟨outs, a1, a2, a3⟩ := h5 id
-    exact ⟨outs, a1, by rw [Mqtt.Proofs.BrokerRefine.spec_step_eq _ _ hov]; exact a2, a3⟩
+    exact ⟨outs, a1, by rw [Mqtt.Proofs.BrokerRefine.spec_step_eq _ _]; exact a2, a3⟩
 
 end Mqtt.Properties.C02
